@@ -16,15 +16,15 @@ func init() {
 		ID:    "C08",
 		Level: "exploration",
 		Rule: "cases: first a sample of the repository's own manifest directories (3 repetitions x all outputs + the binary), then one generated resource set per case (NetworkPolicy worlds with many shared selectors, ANP/BANP worlds, Ingress/Route worlds, a large profile with up to 14 workloads and 10 policies) written in V layout variants (canonical file; documents shuffled into one file; one file per document with random names; random nested grouping; NetworkPolicy rules and peers permuted) and analysed R times per variant in fresh analyzers, for list txt/json/csv/md/dot x exposure off/on and diff txt/csv/md/dot against a second world; a slice is also run through the binary (fresh process, fresh hash seed); " +
-			"oracle: byte equality of every output with the first one of its kind; the number of distinct internal iteration orders actually seen (order of the returned []Peer slice) is measured per input; " +
+			"plus a light stream of many more resource sets (list txt/json, exposure off/on, two layouts, three fresh analyses each); oracle: byte equality of every output with the first one of its kind; the number of distinct internal iteration orders actually seen (order of the returned []Peer slice) is measured per input; " +
 			"non-trivial = at least 3 workload peers, a non-empty report, and more than one distinct iteration order observed; distinct = world hash",
 		Assumptions:       []string{"values inside one selector and ports inside one rule are not permuted (the statement names documents, files, rules and peers)", "each semantic selector has one spelling per world except in the committed witness of finding C08-selector-spelling"},
-		NumCases:          func(tier string, _ int64) int { return tierN(tier, 76, 470) },
+		NumCases:          func(tier string, _ int64) int { return tierN(tier, 76+1500, 470+30000) },
 		Run:               runC08,
 		MinNonTrivial:     25,
 		MinEffectiveShare: 0.5,
 		RequiredEvents: map[string]int64{"outputs_compared": 5000, "bytes_compared": 1000000, "inputs_with_several_iteration_orders": 25, "exposure_outputs_compared": 1000,
-			"diff_outputs_compared": 500, "binary_outputs_compared": 20, "variant_rules_permuted": 30, "variant_perdoc": 30},
+			"diff_outputs_compared": 500, "binary_outputs_compared": 20, "variant_rules_permuted": 30, "variant_perdoc": 30, "light_inputs": 1000},
 	})
 }
 
@@ -112,8 +112,14 @@ func runC08(c *run.Ctx) {
 		return
 	}
 	nf := 12
+	heavy := 76
 	if c.Tier == "thorough" {
 		nf = 70
+		heavy = 470
+	}
+	if c.Idx >= heavy { // light stream: many more resource sets, three fresh analyses each of the outputs most sensitive to map order
+		runC08Light(c)
+		return
 	}
 	if c.Idx <= nf { // the repository's own manifest directories: repetitions in fresh analyzers and fresh processes
 		runC08Fixture(c, c.Idx-1)
@@ -334,4 +340,76 @@ func runC08Fixture(c *run.Ctx, k int) {
 	}
 	r.Effective = nonEmpty
 	r.NonTrivial = nonEmpty && len(orders) > 1
+}
+
+// runC08Light: one generated resource set, list txt/json with and without exposure, three fresh analyses each, written once in
+// canonical layout and once shuffled per document.
+func runC08Light(c *run.Ctx) {
+	r := c.Res
+	g := c.R("light")
+	w, fam := c08World(g, g.Intn(3)*0) // NetworkPolicy family (exposure capable)
+	if g.P(0.6) {
+		world.AddCanonStress(g, w)
+	}
+	world.UnifySpellings(w)
+	r.Feat("light_" + fam)
+	r.Hash = "light/" + w.Hash()
+	r.Ev("light_inputs", 1)
+	dirs := []string{c.Dir("canonical"), c.Dir("perdoc")}
+	if w.Write(dirs[0], nil) != nil || world.WriteDocs(dirs[1], w.Docs(), world.LayoutPerDoc, c.R("layout")) != nil {
+		r.Discarded = "emit"
+		return
+	}
+	first := map[string]string{}
+	nonEmpty := false
+	orders := map[string]bool{}
+	for rep := 0; rep < 3; rep++ {
+		for _, dir := range dirs {
+			for _, exp := range []bool{false, true} {
+				for _, f := range []string{"txt", "json"} {
+					if !exp && f == "json" {
+						continue
+					}
+					res := observe.List(dir, observe.ListOpts{Format: f, Exposure: exp})
+					out := res.Output
+					if res.Panic != "" || res.HasErr || res.OutErr != "" {
+						out = "ERROR"
+					}
+					key := fmt.Sprintf("list/%s/exposure=%v", f, exp)
+					r.Ev("outputs_compared", 1)
+					r.Ev("bytes_compared", int64(len(out)))
+					if exp {
+						r.Ev("exposure_outputs_compared", 1)
+					}
+					if len(out) > 10 && out != "ERROR" {
+						nonEmpty = true
+					}
+					if !exp && f == "txt" {
+						names := []string{}
+						for _, p := range res.Peers {
+							if !p.IsIP {
+								names = append(names, p.Str)
+							}
+						}
+						orders[strings.Join(names, ",")] = true
+					}
+					if prev, ok := first[key]; !ok {
+						first[key] = out
+					} else if prev != out {
+						shape := "differs"
+						if exp {
+							shape = "exposure-differs"
+						}
+						r.Violate("c08.bytes", "c08.bytes:generated:"+shape, "byte-identical "+key+" output for the same resource set", firstDiffText(prev, out), fmt.Sprintf("rep %d dir %s", rep, dir))
+						return
+					}
+				}
+			}
+		}
+	}
+	if len(orders) > 1 {
+		r.Ev("inputs_with_several_iteration_orders", 1)
+	}
+	r.Effective = nonEmpty
+	r.NonTrivial = nonEmpty && len(w.Workloads) >= 3 && len(orders) > 1
 }
